@@ -15,6 +15,7 @@ import (
 	"net"
 	"os"
 	"sort"
+	"syscall"
 	"time"
 
 	"github.com/KafScale/platform/internal/vfc10gen"
@@ -349,6 +350,71 @@ func PickPort() (string, error) {
 	addr := ln.Addr().String()
 	_ = ln.Close()
 	return addr, nil
+}
+
+// StartServer picks a free loopback port, calls start(addr) (which must begin listening in the
+// background and report a listen failure on the returned channel) and waits until the
+// listener answers. If the port was taken in between (busy shared machine) another one is tried.
+func StartServer(start func(addr string) <-chan error) (string, error) {
+	var last error
+	for attempt := 0; attempt < 6; attempt++ {
+		addr, err := PickPort()
+		if err != nil {
+			last = err
+			continue
+		}
+		errc := start(addr)
+		ok := false
+		for i := 0; i < 300 && !ok; i++ {
+			select {
+			case e := <-errc:
+				last = fmt.Errorf("listen on %s: %v", addr, e)
+				i = 300
+				continue
+			default:
+			}
+			c, err := net.DialTimeout("tcp", addr, time.Second)
+			if err == nil {
+				_ = c.Close()
+				ok = true
+			} else {
+				last = err
+				time.Sleep(10 * time.Millisecond)
+			}
+		}
+		if !ok {
+			continue
+		}
+		time.Sleep(20 * time.Millisecond)
+		select {
+		case e := <-errc: // somebody else's listener answered, ours failed
+			last = fmt.Errorf("listen on %s: %v", addr, e)
+			continue
+		default:
+		}
+		return addr, nil
+	}
+	return "", last
+}
+
+// DeadPort returns a loopback address that refuses connections for as long as release is not
+// called: the port is bound (nobody else can get it) but never listened on.
+func DeadPort() (addr string, release func(), err error) {
+	fd, err := syscall.Socket(syscall.AF_INET, syscall.SOCK_STREAM, 0)
+	if err != nil {
+		return "", nil, err
+	}
+	if err := syscall.Bind(fd, &syscall.SockaddrInet4{Port: 0, Addr: [4]byte{127, 0, 0, 1}}); err != nil {
+		_ = syscall.Close(fd)
+		return "", nil, err
+	}
+	sa, err := syscall.Getsockname(fd)
+	if err != nil {
+		_ = syscall.Close(fd)
+		return "", nil, err
+	}
+	port := sa.(*syscall.SockaddrInet4).Port
+	return fmt.Sprintf("127.0.0.1:%d", port), func() { _ = syscall.Close(fd) }, nil
 }
 
 // DialRetry waits for a just-started listener.
